@@ -43,67 +43,77 @@ def explicitGroup (attrs : List Attr) (anns : List Annotation) : Option Nat :=
   | some g => some g
   | none => (lastSome registerOf anns).bind (·.space)
 
-/-! ## the attribute fold -/
+/-! ## the attribute loop -/
 
-theorem foldl_attrStep_group (as : List Attr) : ∀ r : AttrResult,
-    (as.foldl attrStep r).groupOverride =
-      (match lastSome attrGroup as with | some g => some g | none => r.groupOverride) := by
+/-- an accepted attribute list: what the three fields hold afterwards -/
+theorem attrLoop_spec (as : List Attr) : ∀ {r r' : AttrResult}, attrLoop r as = .ok r' →
+    r'.groupOverride = (match lastSome attrGroup as with | some g => some g | none => r.groupOverride) ∧
+    r'.indexOverride = (match lastSome attrIndex as with | some i => some i | none => r.indexOverride) ∧
+    r'.bindless = (r.bindless || as.any isBindless) := by
   induction as with
-  | nil => intro r; rfl
+  | nil => intro r r' h; simp [attrLoop] at h; subst h; simp [lastSome]
   | cons a as ih =>
-    intro r
-    rw [List.foldl_cons, ih]
-    simp only [lastSome]
-    cases lastSome attrGroup as with
-    | some g => rfl
-    | none =>
-      cases a with
-      | bindGroup g => rfl
-      | bindless => rfl
-      | vkBinding i g => cases g <;> rfl
-
-theorem foldl_attrStep_index (as : List Attr) : ∀ r : AttrResult,
-    (as.foldl attrStep r).indexOverride =
-      (match lastSome attrIndex as with | some i => some i | none => r.indexOverride) := by
-  induction as with
-  | nil => intro r; rfl
-  | cons a as ih =>
-    intro r
-    rw [List.foldl_cons, ih]
-    simp only [lastSome]
-    cases lastSome attrIndex as with
-    | some g => rfl
-    | none =>
-      cases a with
-      | bindGroup g => rfl
-      | bindless => rfl
-      | vkBinding i g => cases g <;> rfl
-
-theorem foldl_attrStep_bindless (as : List Attr) : ∀ r : AttrResult,
-    (as.foldl attrStep r).bindless = (r.bindless || as.any isBindless) := by
-  induction as with
-  | nil => intro r; simp
-  | cons a as ih =>
-    intro r
-    rw [List.foldl_cons, ih]
+    intro r r' h
     cases a with
-    | bindGroup g => simp [attrStep, isBindless]
-    | bindless => simp [attrStep, isBindless]
-    | vkBinding i g => cases g <;> simp [attrStep, isBindless]
+    | badCount l => simp [attrLoop] at h
+    | unknown n => simp [attrLoop] at h
+    | notConstant => simp [attrLoop] at h
+    | bindGroup g =>
+      simp only [attrLoop] at h
+      obtain ⟨h1, h2, h3⟩ := ih h
+      refine ⟨?_, ?_, ?_⟩
+      · rw [h1]; simp only [lastSome]; cases lastSome attrGroup as <;> rfl
+      · rw [h2]; simp only [lastSome]; cases lastSome attrIndex as <;> rfl
+      · rw [h3]; simp [attrStep, isBindless]
+    | bindless =>
+      simp only [attrLoop] at h
+      obtain ⟨h1, h2, h3⟩ := ih h
+      refine ⟨?_, ?_, ?_⟩
+      · rw [h1]; simp only [lastSome]; cases lastSome attrGroup as <;> rfl
+      · rw [h2]; simp only [lastSome]; cases lastSome attrIndex as <;> rfl
+      · rw [h3]; simp [attrStep, isBindless]
+    | vkBinding i g =>
+      simp only [attrLoop] at h
+      obtain ⟨h1, h2, h3⟩ := ih h
+      refine ⟨?_, ?_, ?_⟩
+      · rw [h1]; simp only [lastSome]; cases lastSome attrGroup as <;> cases g <;> rfl
+      · rw [h2]; simp only [lastSome]; cases lastSome attrIndex as <;> cases g <;> rfl
+      · rw [h3]; cases g <;> simp [attrStep, isBindless]
 
-theorem parseAttributes_group (as : List Attr) : (parseAttributes as).groupOverride = lastSome attrGroup as := by
-  unfold parseAttributes
-  rw [foldl_attrStep_group]
+/-- an accepted attribute list has no ill-formed attribute -/
+def wellFormed : Attr → Bool
+  | .badCount _ => false
+  | .unknown _ => false
+  | .notConstant => false
+  | _ => true
+
+theorem attrLoop_wellFormed (as : List Attr) : ∀ {r r' : AttrResult}, attrLoop r as = .ok r' →
+    as.all wellFormed = true := by
+  induction as with
+  | nil => intro r r' _; rfl
+  | cons a as ih =>
+    intro r r' h
+    cases a with
+    | badCount l => simp [attrLoop] at h
+    | unknown n => simp [attrLoop] at h
+    | notConstant => simp [attrLoop] at h
+    | bindGroup g => simp only [attrLoop] at h; simp [wellFormed, ih h]
+    | bindless => simp only [attrLoop] at h; simp [wellFormed, ih h]
+    | vkBinding i g => simp only [attrLoop] at h; simp [wellFormed, ih h]
+
+theorem parseAttributes_group {as : List Attr} {attr : AttrResult} (h : parseAttributes as = .ok attr) :
+    attr.groupOverride = lastSome attrGroup as := by
+  rw [(attrLoop_spec as h).1]
   cases lastSome attrGroup as <;> rfl
 
-theorem parseAttributes_index (as : List Attr) : (parseAttributes as).indexOverride = lastSome attrIndex as := by
-  unfold parseAttributes
-  rw [foldl_attrStep_index]
+theorem parseAttributes_index {as : List Attr} {attr : AttrResult} (h : parseAttributes as = .ok attr) :
+    attr.indexOverride = lastSome attrIndex as := by
+  rw [(attrLoop_spec as h).2.1]
   cases lastSome attrIndex as <;> rfl
 
-theorem parseAttributes_bindless (as : List Attr) : (parseAttributes as).bindless = as.any isBindless := by
-  unfold parseAttributes
-  rw [foldl_attrStep_bindless]
+theorem parseAttributes_bindless {as : List Attr} {attr : AttrResult} (h : parseAttributes as = .ok attr) :
+    attr.bindless = as.any isBindless := by
+  rw [(attrLoop_spec as h).2.2]
   simp [AttrResult.empty]
 
 /-! ## the annotation loop of one name -/
@@ -295,9 +305,9 @@ theorem declaratorStep_frame {σ : Type} {expected : Option RegT} {isExtern : Bo
 
 /-- the global one declarator produces: its own name and shape, and a group that is `explicitGroup` of the
     declaration's attributes and ITS annotations -/
-theorem declaratorStep_single {σ : Type} {attrs : List Attr} {expected : Option RegT} {isExtern : Bool}
-    {d : Declarator σ} {g : GlobalVar σ}
-    (h : declaratorStep expected isExtern (parseAttributes attrs) [] d = .ok [g]) :
+theorem declaratorStep_single {σ : Type} {attrs : List Attr} {attr : AttrResult} {expected : Option RegT}
+    {isExtern : Bool} {d : Declarator σ} {g : GlobalVar σ} (ha : parseAttributes attrs = .ok attr)
+    (h : declaratorStep expected isExtern attr [] d = .ok [g]) :
     g.name = d.name ∧ g.shape = d.shape ∧ g.staticSampler = d.staticSampler ∧
     g.bindless = attrs.any isBindless ∧
     g.langSlot.set = explicitGroup attrs d.annotations := by
@@ -312,8 +322,8 @@ theorem declaratorStep_single {σ : Type} {attrs : List Attr} {expected : Option
       · cases h
       · simp only [List.nil_append, Except.ok.injEq, List.cons.injEq, and_true] at h
         subst h
-        refine ⟨rfl, rfl, rfl, parseAttributes_bindless attrs, ?_⟩
-        simp only [applyOverrides_set, parseAttributes_group, explicitGroup, annotate_set hann]
+        refine ⟨rfl, rfl, rfl, parseAttributes_bindless ha, ?_⟩
+        simp only [applyOverrides_set, parseAttributes_group ha, explicitGroup, annotate_set hann]
         cases lastSome attrGroup attrs with
         | some g => rfl
         | none =>
